@@ -5,7 +5,7 @@ import PV.Model.Tree.Run
 import PV.Driver.Util
 /-! driver for the tree family (C12, C13, C14).
     ops:  new bst|rb|avl [plain|konly|vonly|data|wide|nk=ORD]… | newf … (the same call while the allocator fails) | ins ORD | insv ORD | insk | inskv | insf ORD | rem ORD | remn |
-          get ORD | getn | each J | clear | free | shape | count | api
+          get ORD | getk ORD | getn | each J | clear | free | shape | count | api
     (`wide`: the harness comparator answers with arbitrary magnitudes — the model's `Ordering` is the sign, nothing to do here;
      `nk=ORD`: the ordinal the NULL key compares as; `remn`/`getn`: the NULL pointer as the probe key; `free`: p_tree_free =
      clear + release, afterwards there is no tree until the next `new`; `api`: type and the NULL-argument entry points)
@@ -109,16 +109,11 @@ def step (s : St) (toks : List String) : IO (St × Bool) := do
     match o.toNat? with
     | none => IO.println "bad-op"; return (s, false)
     | some o => doOp s (.ins (o, s.next) s.next) true
-  | ["insf", o] =>                 -- insert while the allocator fails: a new key is not added (identity step), an equal key is replaced
+  | ["insf", o] =>                 -- insert while the allocator fails: the model's own step kind (`Op.insf`): a new key is
+                                   -- not added (identity), an equal key is replaced; the harness hands out an id either way
     match o.toNat? with
     | none => IO.println "bad-op"; return (s, false)
-    | some o =>
-      match s.t.step (.get (o, 0)), s.t.step .count with
-      | some (_, .got none), some (_, .num n) =>
-        IO.println s!"n={n} d=[]"
-        return ({ s with next := s.next + 1 }, false)
-      | some (_, .got (some _)), _ => doOp s (.ins (o, s.next) s.next) true
-      | _, _ => IO.println "fault"; return (s, true)
+    | some o => doOp s (.insf (o, s.next) s.next) true
   | ["insv", o] =>                 -- NULL value
     match o.toNat? with
     | none => IO.println "bad-op"; return (s, false)
@@ -150,6 +145,16 @@ def step (s : St) (toks : List String) : IO (St × Bool) := do
     match o.toNat? with
     | none => IO.println "bad-op"; return (s, false)
     | some o => doOp s (.get (o, 0)) false
+  | ["getk", o] =>                 -- the stored key object the comparator meets as "equal" (model: last key of the lookup path)
+    match o.toNat? with
+    | none => IO.println "bad-op"; return (s, false)
+    | some o =>
+      let fmt : Option K → String := fun | some k => s!"k{idStr k.2}" | none => "nil"
+      let m := match (s.t.toBT.lookupPath cmpK (o, 0)).getLast? with
+        | some k' => if cmpK (o, 0) k' == .eq then some k' else none
+        | none => none
+      let sp := (SM.find cmpK s.spec (o, 0)).map (·.1)
+      IO.println (sd (fmt m) (fmt sp)); return (s, false)
   | ["each", j] =>
     match j.toNat? with
     | none => IO.println "bad-op"; return (s, false)
